@@ -9,7 +9,9 @@ Python → model
 * otherwise the child descriptor is evaluated from the incoming bindings: true condition results, then the selected
   variable (bound → its value; unbound → enumerates its domain); each row additionally binds the quantifier's id to
   the selected variable's value; the result is **always true** (the quantifier does not propagate the row's flag), so
-  a falsy value of a sub-query is NOT filtered by the comparator (unlike a bound plain variable, F-C01-3);
+  a falsy value of a sub-query is NOT filtered by the comparator (nor is a bound plain variable since the repair of
+  F-C01-3; the sub-query's selected variable, when already bound by the enclosing query, is evaluated with the descriptor
+  as parent — an operand position — and only its VALUE is used here, so `evalVar`'s flag is irrelevant);
 * `Comparator.get_first_second_operands`: the right operand goes first iff the environment is non-empty and one of its
   variables (for a sub-query: its selected and condition variables, literals included) is bound.
 Core Lean only.
